@@ -1,6 +1,8 @@
 package scen
 
 import (
+	"github.com/libp2p/go-libp2p/core/peer"
+	"berty.tech/go-orbit-db/pubsub/oneonone"
 	"context"
 	"fmt"
 	"sort"
@@ -412,6 +414,56 @@ func runC18Case(c c18Case) (string, []explore.Violation) {
 	return fmt.Sprintf("parked=%d", parkedAtInjection), vs
 }
 
+// runC18ChannelFault: the instance's pairwise direct channel (pubsub/oneonone) over a scripted pubsub whose
+// Subscribe fails k times: Connect reports the fault; afterwards Send, a second Connect and Close must all
+// return (state-based: at quiescence none of them is still blocked).
+func runC18ChannelFault(failures int) (string, []explore.Violation) {
+	id := fmt.Sprintf("direct channel: %d failing subscription(s), then Send, Connect, Close", failures)
+	var vs []explore.Violation
+	self, p1, p2 := sim.DeterministicPeerID("self"), sim.DeterministicPeerID("p1"), sim.DeterministicPeerID("p2")
+	ps := newScriptPubSub()
+	ps.peersAlways = []peer.ID{p1, p2}
+	ps.failNext = failures
+	api := &scriptAPI{self: self, ps: ps}
+	ctx, cancel := context.WithCancel(context.Background())
+	defer cancel()
+	ch, err := oneonone.NewChannelFactory(api)(ctx, &recEmitter{}, nil)
+	if err != nil {
+		return "harness: " + err.Error(), nil
+	}
+	for i := 0; i < failures; i++ {
+		call := async("Connect with failing subscription", func() error { return ch.Connect(ctx, p1) })
+		_ = sim.Quiesce()
+		if !call.finished() {
+			return "skipped: Connect is still in its built-in wait", nil
+		}
+		if call.err == nil {
+			vs = append(vs, explore.Violation{Signature: "connect-hides-subscription-fault", Detail: id})
+		}
+	}
+	for _, step := range []struct {
+		name string
+		f    func() error
+	}{
+		{"Send to another peer", func() error { return ch.Send(ctx, p2, []byte("x")) }},
+		{"Close", func() error { return ch.Close() }},
+	} {
+		call := async(step.name, step.f)
+		_ = sim.Quiesce()
+		// Send to an unconnected peer may legitimately wait inside Connect's built-in delay: only a goroutine
+		// blocked on a lock is a hang
+		if !call.finished() {
+			for _, g := range sim.Goroutines() {
+				if strings.Contains(g.Stack, "pubsub/oneonone") && (strings.Contains(g.Status, "sync.Mutex.Lock") || strings.Contains(g.Status, "sync.RWMutex") || strings.Contains(g.Status, "semacquire")) {
+					vs = append(vs, explore.Violation{Signature: "direct-channel-hangs-after-failed-connect:" + strings.Fields(step.name)[0], Detail: id + ": " + step.name + " is blocked on the channel's lock"})
+					return "hang", vs
+				}
+			}
+		}
+	}
+	return "ok", vs
+}
+
 func leakClass(g string) string {
 	// "created-by @ innermost [status]" -> short function name
 	parts := strings.Split(g, " @ ")
@@ -431,7 +483,7 @@ var _ ipfslog.Entry
 func init() {
 	explore.Register(&explore.CheckDef{
 		ID: "C18", Level: "exploration",
-		Rule:   "cross product, each case on a fresh world: store type x moment {idle; in-flight write parked at each of 6 points (begin, block write, after append, head put, after persist, after view update); in-flight replication parked at each of 5 points (fetch, before slot, after dequeue, before done, before load-complete); in-flight Load parked in a fetch} x injection {store.Close, store.Close twice, orbitdb.Close, orbitdb.Close twice, store.Drop, Close then Drop, Close + reopen the same database + Close of the stale handle + orbitdb.Close} x {alone, with a sibling database on the same instance, with a sibling created through the same options value}. After the injection everything parked is released and every operation is issued once on the closed object. Oracle at quiescence (state-based, no timeouts): every call has returned, no panic, the go-orbit-db goroutines still alive are exactly those present before the store was opened (none after orbitdb.Close), after the instance is closed at the end none at all; reopening and loading yields all acknowledged entries, Drop removed this database's cache, left the sibling untouched and the dropped store no longer serves what was acknowledged before the drop. Non-trivial = cases with a goroutine parked mid-operation at the injection.",
+		Rule:   "cross product, each case on a fresh world: store type x moment {idle; in-flight write parked at each of 6 points (begin, block write, after append, head put, after persist, after view update); in-flight replication parked at each of 5 points (fetch, before slot, after dequeue, before done, before load-complete); in-flight Load parked in a fetch} x injection {store.Close, store.Close twice, orbitdb.Close, orbitdb.Close twice, store.Drop, Close then Drop, Close + reopen the same database + Close of the stale handle + orbitdb.Close} x {alone, with a sibling database on the same instance, with a sibling created through the same options value}. After the injection everything parked is released and every operation is issued once on the closed object. Oracle at quiescence (state-based, no timeouts): every call has returned, no panic, the go-orbit-db goroutines still alive are exactly those present before the store was opened (none after orbitdb.Close), after the instance is closed at the end none at all; reopening and loading yields all acknowledged entries, Drop removed this database's cache, left the sibling untouched and the dropped store no longer serves what was acknowledged before the drop. Plus the instance's pairwise direct channel (pubsub/oneonone over a scripted pubsub) whose subscription fails once or twice: afterwards Send and Close must not block on the channel's lock. Non-trivial = cases with a goroutine parked mid-operation at the injection.",
 		Units:  func(tier string) []explore.Unit { return explore.ChunkUnits("c18-"+tier, 16) },
 		Budget: func(tier string) float64 { return 400 },
 		RunUnit: func(c *explore.Ctx) {
@@ -440,6 +492,10 @@ func init() {
 			for _, cs := range c18Cases(strings.TrimPrefix(prefix, "c18-")) {
 				cs := cs
 				cases = append(cases, explore.Case{ID: cs.ID(), Nontrivial: cs.Setup != "idle", Run: func() (string, []explore.Violation) { return runC18Case(cs) }})
+			}
+			for _, k := range []int{1, 2} {
+				k := k
+				cases = append(cases, explore.Case{ID: fmt.Sprintf("direct channel with %d failing subscription(s)", k), Nontrivial: true, Run: func() (string, []explore.Violation) { return runC18ChannelFault(k) }})
 			}
 			explore.RunCases(c, "C18", cases, i, n)
 		},
